@@ -47,6 +47,7 @@ def run(chk, F):
                        "same prefix selection policy as Registry::lookup: %s" % dict(v),
                        "%s selects the prefix differently from Registry::lookup: %s vs %s (canonicalising or dependency ordering "
                        "would then read a name differently from evaluation)" % (k, dict(v), dict(base)))
+    chk.guard("exact-stage-agreement", "Registry", lambda: exact_stage(chk, F))
     chk.guard("context-lookup", "Context::lookup", lambda: context_lookup(chk, F))
     chk.guard("determinism", "registry", lambda: determinism(chk, F))
     import shared_rules
@@ -301,3 +302,44 @@ def determinism(chk, F):
     chk.decide(not bad, "determinism", "rink_core::lookup+canonicalize", "no-hash-clock-env", "",
                "no hash container, clock, environment, thread or randomness call among the %d functions reachable from lookup/canonicalize" % len(reach),
                "non-deterministic source reachable from name resolution: %s" % bad[:3])
+
+
+def exact_stage(chk, F):
+    """canonicalize_exact may treat a name as an exactly defined unit only when lookup_exact would: lookup_exact answers from
+    `units` and `base_units`; `definitions` also holds quantities (`mass ? kg`), so the canonicaliser's read of `definitions`
+    must lie behind `units.contains_key(name)` (otherwise `mass` - the plural of `mas` for lookup - canonicalises to
+    kilogram)."""
+    lk = F.find(CORE, "loader::registry::Registry::lookup_exact")
+    cn = F.find(CORE, "loader::registry::Registry::canonicalize_exact")
+
+    def containers(fn):
+        out = set()
+        for bb, t in fn.calls():
+            if "callee" in t and t["args"]:
+                a = fn.apath(t["args"][0])
+                if a[0] == ("arg", 1) and len(a[1]) == 1 and t["callee"]["path"].split("::")[-1] in ("get", "contains_key", "contains"):
+                    out.add(a[1][0])
+        return out
+    lc, cc = containers(lk), containers(cn)
+    fk = "rink_core::loader::registry::Registry::canonicalize_exact"
+    extra = cc - lc - {"base_unit_long_names"}
+    ok = True
+    detail = []
+    for f in sorted(extra):
+        for bb, t in cn.calls():
+            if "callee" in t and t["args"] and cn.apath(t["args"][0]) == (("arg", 1), (f,)) and t["callee"]["path"].endswith("::get"):
+                gated = False
+                for g in cn.guards_of(bb):
+                    d = cn.guard_desc(g)
+                    if d[0] == "bool" and d[1][0][0] == "call" and d[1][0][1].endswith("::contains_key") and any(cn.apath_str_eq(x, ("arg", 1), (c,)) if hasattr(cn, "apath_str_eq") else (x == (("arg", 1), (c,))) for x in d[1][0][2][:1] for c in lc):
+                        gated = gated or (d[2] is True)
+                    if d[0] == "bool" and d[1][0][0] == "unop" and d[1][0][1] == "Not":
+                        inner = d[1][0][2]
+                        if inner[0][0] == "call" and inner[0][1].endswith("::contains_key") and any(inner[0][2][0] == (("arg", 1), (c,)) for c in lc):
+                            gated = gated or (d[2] is False)
+                ok = ok and gated
+                detail.append("%s.get(name) %s" % (f, "is behind a membership test of a container lookup_exact answers from" if gated else "is NOT behind `units.contains_key(name)`"))
+    chk.decide(ok, "exact-stage-agreement", fk, "same-notion-of-exact-name", cn.where(),
+               "canonicalize_exact consults %s; lookup_exact answers from %s; %s" % (sorted(cc), sorted(lc), "; ".join(detail) or "no further container"),
+               "canonicalize_exact treats names as exact units that lookup_exact does not know (%s): canonicalising such a name changes the value it "
+               "denotes (`mass` is the plural of `mas` for lookup but canonicalises to `kilogram`)" % "; ".join(detail))
